@@ -25,6 +25,7 @@
 From Soy Require Import Proofs.SourceTieExpr Proofs.SourceTieQuote Proofs.SourceTieAstPrint Proofs.SourceTieUnquote.
 From Soy Require Import Model.Bytes Model.Num Model.Values Model.Ast Model.Token Model.NumLit Model.Quote Model.ExprParser
   Model.AstPrint Generated.Tables Spec.ExprSyntax Proofs.ExprParserRules Proofs.LiteralProofs Proofs.ExprParserProofs Proofs.PlaceholderTextProofs Proofs.FloatRtPrint.
+From Soy Require Proofs.FloatRtMain Proofs.FloatRtLex.
 From Soy Require Import Model.Outcome Model.MsgId Proofs.MsgIdProofs.
 From Soy Require Import Model.Lexer Model.Parser Proofs.LexPrintMain Proofs.LexParseText Proofs.LexPrintCmd Proofs.PrintCmdText.
 From Soy Require Import Model.RawText Model.Parser Model.AstPrintCmd Spec.CmdSyntax Proofs.CmdRoundtripBase Proofs.CmdRoundtripRules Proofs.CmdRoundtrip.
@@ -203,6 +204,15 @@ Print Assumptions C17_float_literals.
 Theorem C17_float_condition : forall f, float_ok f <-> FloatRtMain.fl_in_window f.
 Proof. exact FloatRtPrint.float_ok_iff_window. Qed.
 Print Assumptions C17_float_condition.
+
+(* the float clause of lex_ok (the printed float text is ONE float item for the scanner: sign, digits, then a fraction
+   or an exponent) is a theorem too: lex_ok says nothing about floats that wf_expr does not already give *)
+Theorem C17_float_texts : forall f s, fl_finite_norm f -> fl_print f = Some s -> float_txt_ok s.
+Proof. exact FloatRtLex.fl_print_float_txt. Qed.
+Print Assumptions C17_float_texts.
+Theorem C17_float_lex_ok : forall p f, float_ok f -> lex_ok (NFloat p f).
+Proof. intros p f [Hn _]. exact (FloatRtLex.lex_ok_float p f Hn). Qed.
+Print Assumptions C17_float_lex_ok.
 
 Theorem C17_float_checker_sound : forall f, float_okb f = true -> float_ok f.
 Proof. exact float_okb_sound. Qed.
